@@ -1,4 +1,4 @@
-// Intrinsics: time.Time / time.Duration (unix nanoseconds as signed 64-bit), prefix stores, decode flags.
+// Intrinsics: time.Time (unix seconds + nanoseconds) / time.Duration, decode flags.
 package main
 
 import (
@@ -19,38 +19,75 @@ func timeOf(v Value) *TimeVal {
 
 var billion = BVConst(1000000000, 64)
 
+// floorDivMod1e9: floor division and non-negative remainder of a signed nanosecond count by 1e9.
+func floorDivMod1e9(ns *T) (*T, *T) {
+	if ns.IsConst() {
+		v := ns.SignedBV()
+		q, r := v/1000000000, v%1000000000
+		if r < 0 {
+			q--
+			r += 1000000000
+		}
+		return BVConst(uint64(q), 64), BVConst(uint64(r), 64)
+	}
+	q := BVBin("bvsdiv", ns, billion)
+	r := BVBin("bvsrem", ns, billion)
+	neg := BVCmp("bvslt", r, BVConst(0, 64))
+	return Ite(neg, BVBin("bvsub", q, BVConst(1, 64)), q), Ite(neg, BVBin("bvadd", r, billion), r)
+}
+
+func timeLess(a, b *TimeVal) *T {
+	return Or(BVCmp("bvslt", a.Sec, b.Sec), And(Eq(a.Sec, b.Sec), BVCmp("bvult", a.Nsec, b.Nsec)))
+}
+
 func init() {
-	reg("(time.Time).UnixNano", func(e *Engine, fn *ssa.Function, a []Value) Value { return timeOf(a[0]).Ns })
-	reg("(time.Time).Unix", func(e *Engine, fn *ssa.Function, a []Value) Value {
-		// floor division for the representable range (block times are >= 0 in every harness)
-		return BVBin("bvsdiv", timeOf(a[0]).Ns, billion)
+	reg("(time.Time).UnixNano", func(e *Engine, fn *ssa.Function, a []Value) Value {
+		t := timeOf(a[0])
+		return BVBin("bvadd", BVBin("bvmul", t.Sec, billion), t.Nsec)
 	})
-	reg("(time.Time).Nanosecond", func(e *Engine, fn *ssa.Function, a []Value) Value {
-		return BVBin("bvsrem", timeOf(a[0]).Ns, billion)
-	})
+	reg("(time.Time).Unix", func(e *Engine, fn *ssa.Function, a []Value) Value { return timeOf(a[0]).Sec })
+	reg("(time.Time).Nanosecond", func(e *Engine, fn *ssa.Function, a []Value) Value { return timeOf(a[0]).Nsec })
 	reg("time.Unix", func(e *Engine, fn *ssa.Function, a []Value) Value {
 		sec, nsec := a[0].(*T), a[1].(*T)
-		e.note("time.Unix(sec, nsec): modelled as sec*1e9+nsec in wrapping int64 (times outside the int64-nanosecond range are outside the claim)")
-		return &TimeVal{Ns: BVBin("bvadd", BVBin("bvmul", sec, billion), nsec)}
+		if nsec.IsConst() && nsec.SignedBV() >= 0 && nsec.SignedBV() < 1000000000 {
+			return &TimeVal{Sec: sec, Nsec: nsec}
+		}
+		q, r := floorDivMod1e9(nsec)
+		return &TimeVal{Sec: BVBin("bvadd", sec, q), Nsec: r}
 	})
-	reg("(time.Time).After", func(e *Engine, fn *ssa.Function, a []Value) Value {
-		return BVCmp("bvsgt", timeOf(a[0]).Ns, timeOf(a[1]).Ns)
-	})
-	reg("(time.Time).Before", func(e *Engine, fn *ssa.Function, a []Value) Value {
-		return BVCmp("bvslt", timeOf(a[0]).Ns, timeOf(a[1]).Ns)
-	})
+	reg("(time.Time).After", func(e *Engine, fn *ssa.Function, a []Value) Value { return timeLess(timeOf(a[1]), timeOf(a[0])) })
+	reg("(time.Time).Before", func(e *Engine, fn *ssa.Function, a []Value) Value { return timeLess(timeOf(a[0]), timeOf(a[1])) })
 	reg("(time.Time).Equal", func(e *Engine, fn *ssa.Function, a []Value) Value {
-		return Eq(timeOf(a[0]).Ns, timeOf(a[1]).Ns)
+		x, y := timeOf(a[0]), timeOf(a[1])
+		return And(Eq(x.Sec, y.Sec), Eq(x.Nsec, y.Nsec))
+	})
+	reg("(time.Time).Compare", func(e *Engine, fn *ssa.Function, a []Value) Value {
+		x, y := timeOf(a[0]), timeOf(a[1])
+		return Ite(timeLess(x, y), BVConst(^uint64(0), 64), Ite(timeLess(y, x), BVConst(1, 64), BVConst(0, 64)))
 	})
 	reg("(time.Time).IsZero", func(e *Engine, fn *ssa.Function, a []Value) Value {
-		// the zero time.Time (year 1) is not representable as int64 nanoseconds; decoded/zero values use 0
-		return Eq(timeOf(a[0]).Ns, BVConst(0, 64))
+		// the zero time.Time is year 1: unix seconds -62135596800
+		t := timeOf(a[0])
+		return And(Eq(t.Sec, BVConst(uint64(0xfffffff1886e0900), 64)), Eq(t.Nsec, BVConst(0, 64)))
 	})
 	reg("(time.Time).Add", func(e *Engine, fn *ssa.Function, a []Value) Value {
-		return &TimeVal{Ns: BVBin("bvadd", timeOf(a[0]).Ns, a[1].(*T))}
+		t := timeOf(a[0])
+		d := a[1].(*T)
+		q, r := floorDivMod1e9(BVBin("bvadd", t.Nsec, d))
+		if d.IsConst() && t.Nsec != nil {
+			// constant duration: split it statically so that no division is needed
+			dq, dr := floorDivMod1e9(d)
+			sum := BVBin("bvadd", t.Nsec, dr)
+			carry := BVCmp("bvuge", sum, billion)
+			return &TimeVal{Sec: BVBin("bvadd", BVBin("bvadd", t.Sec, dq), Ite(carry, BVConst(1, 64), BVConst(0, 64))), Nsec: Ite(carry, BVBin("bvsub", sum, billion), sum)}
+		}
+		e.note("time.Add with a symbolic duration: nanosecond sum assumed not to overflow int64")
+		return &TimeVal{Sec: BVBin("bvadd", t.Sec, q), Nsec: r}
 	})
 	reg("(time.Time).Sub", func(e *Engine, fn *ssa.Function, a []Value) Value {
-		return BVBin("bvsub", timeOf(a[0]).Ns, timeOf(a[1]).Ns)
+		x, y := timeOf(a[0]), timeOf(a[1])
+		e.note("time.Sub: result assumed representable as int64 nanoseconds (Go saturates otherwise)")
+		return BVBin("bvadd", BVBin("bvmul", BVBin("bvsub", x.Sec, y.Sec), billion), BVBin("bvsub", x.Nsec, y.Nsec))
 	})
 	reg("(time.Time).UTC", func(e *Engine, fn *ssa.Function, a []Value) Value { return timeOf(a[0]) })
 	reg("(time.Time).Round", func(e *Engine, fn *ssa.Function, a []Value) Value { return timeOf(a[0]) })
